@@ -141,7 +141,8 @@ class Program:
             self.enums["Out"] = ["_%d" % k for k in range(nsel + 1)] + ["Disabled"]
         for name, b in self.bodies.items():
             if b.header.startswith("static ") or b.header.startswith("const "):
-                self.statics[name.split("::")[-1]] = b
+                self.statics.setdefault(name.split("::")[-1], b)
+                self.statics[name] = b
                 continue
             m = re.match(r"^(?:(.*?)::)?<impl at (.*?)>::(\w+)((?:::\{closure#\d+\})*)$", name)
             if m and not m.group(4):
@@ -326,8 +327,8 @@ class Interp:
                 return self.promoted(frame, t)
             mm = re.match(r"^(.*?): (.*)$", t)
             if mm:  # typed ZST const `Foo: Foo`
-                return self.env.const_path(self, mm.group(1).strip(), mm.group(2))
-            return self.env.const_path(self, t, None)
+                return self.env.const_path(self, mm.group(1).strip(), mm.group(2), frame)
+            return self.env.const_path(self, t, None, frame)
         raise Unsupported("const kind " + k)
 
     def promoted(self, frame, t):
@@ -512,6 +513,8 @@ class Interp:
         raise Unsupported("cast kind " + kind)
 
     def discriminant(self, v):
+        if isinstance(v, Agg) and v.kind == "enum" and v.name == "Out" and isinstance(v.extra, dict) and "n" in v.extra:
+            return IntV(v.extra["n"] if v.variant == "Disabled" else int(v.variant[1:]), 64, True)
         if isinstance(v, Agg) and v.kind == "enum":
             return IntV(self.prog.enum_index(v.name, v.variant), 64, True)
         if isinstance(v, Agg) and v.kind == "coroutine":
@@ -524,6 +527,14 @@ class Interp:
         vals = [self.operand(frame, o) for _n, o in fields]
         s = strip_generics(path)
         parts = [p for p in s.split("::") if p]
+        if len(parts) >= 2 and parts[-2] == "Out" and "__tokio_select_util" in path:
+            # tokio::select!'s per-invocation output enum `Out<_0, .., _{n-1}>`: n = number of type
+            # arguments; variants _0 .. _{n-1}, Disabled
+            mm = re.search(r"Out::<(.*)>::\w+$", path, re.S)
+            n = len(split_top(mm.group(1))) if mm else len(self.prog.enums.get("Out", [])) - 1
+            v = mk_enum("Out", parts[-1], *vals)
+            v.extra = {"n": n}
+            return v
         if len(parts) >= 2 and parts[-2] in self.prog.enums and parts[-1] in self.prog.enums[parts[-2]]:
             return mk_enum(parts[-2], parts[-1], *vals)
         name = parts[-1] if parts else s
@@ -536,6 +547,9 @@ class Interp:
         if k == "ref":
             c, p = self.loc(frame, rv.a)
             return Ref(c, p, rv.b != "shared")
+        if k == "tls_ref":
+            # single-threaded interpretation: a thread-local is a static
+            return Ref(self.static_cell(rv.a), (), True)
         if k == "binop":
             return self.binop(rv.a, self.operand(frame, rv.b), self.operand(frame, rv.c))
         if k == "unop":
